@@ -119,6 +119,9 @@ func run(prop, tier string, seed int64, onlyShard int, onlyKeys map[string]bool)
 	if replayMode {
 		work += "-replay"
 	}
+	if m := os.Getenv("VERIF_MODFILE"); m != "" {
+		work += "-dev-" + strings.TrimSuffix(filepath.Base(m), ".mod")
+	}
 	os.RemoveAll(work)
 	os.MkdirAll(work, 0o755)
 
@@ -127,6 +130,15 @@ func run(prop, tier string, seed int64, onlyShard int, onlyKeys map[string]bool)
 	args := []string{"build", "-tags", "verif"}
 	if race {
 		args = append(args, "-race")
+	}
+	// development aid only (never set by a registered command): build the worker
+	// against a scratch copy of the library named by an alternative go.mod, e.g. to
+	// try a check while /repo is temporarily patched by a seeded-fault run. Work
+	// files, replays and evidence of such a run go to .work/<prop>-<tier>-dev/.
+	devMod := os.Getenv("VERIF_MODFILE")
+	if devMod != "" {
+		args = append(args, "-modfile="+devMod)
+		fmt.Printf("NOTE: development run, worker built with -modfile=%s (no evidence written)\n", devMod)
 	}
 	args = append(args, "-o", worker, "./cmd/worker")
 	cmd := exec.Command("go", args...)
@@ -298,6 +310,9 @@ func run(prop, tier string, seed int64, onlyShard int, onlyKeys map[string]bool)
 			}
 		}
 		rp := filepath.Join(verifDir, "replays", fmt.Sprintf("%s-%s-%d-%d.json", prop, tier, seed, i))
+		if devMod != "" {
+			rp = filepath.Join(verifDir, "replays", fmt.Sprintf("%s-%s-%d-%d-%s.json", prop, tier, seed, i, strings.TrimSuffix(filepath.Base(devMod), ".mod")))
+		}
 		rec := map[string]any{"property": prop, "key": k, "occurrences": merged.ViolCounts[k], "tier": tier, "seed": seed}
 		if ex != nil {
 			rec["what"] = ex.What
@@ -371,8 +386,12 @@ func run(prop, tier string, seed int64, onlyShard int, onlyKeys map[string]bool)
 			"violations":  len(unknownKeys),
 		}
 		b, _ := json.MarshalIndent(ev, "", " ")
-		os.MkdirAll(filepath.Join(verifDir, "evidence"), 0o755)
-		os.WriteFile(filepath.Join(verifDir, "evidence", prop+".json"), b, 0o644)
+		if os.Getenv("VERIF_MODFILE") != "" {
+			os.WriteFile(filepath.Join(work, "evidence-dev.json"), b, 0o644)
+		} else {
+			os.MkdirAll(filepath.Join(verifDir, "evidence"), 0o755)
+			os.WriteFile(filepath.Join(verifDir, "evidence", prop+".json"), b, 0o644)
+		}
 	}
 	verdict := map[int]string{0: "HELD", 1: "VIOLATED", 2: "INCONCLUSIVE"}[status]
 	fmt.Printf("%s property=%s tier=%s seed=%d evaluations=%d distinct=%d known_findings=%d restarts=%d wall=%.1fs\n",
